@@ -221,6 +221,7 @@ class Interp:
         self.live_olds = []
         self.live_heap = None
         self.live_ghost = None
+        self.mm_lists = {}
         if prefix:
             self.silent_until = len(prefix) - 1
             self.silent = True
@@ -629,13 +630,74 @@ class Interp:
 
     def ev_List(self, node):
         items = []
+        symbolic = False
         for e in node.elts:
             if isinstance(e, ast.Starred):
                 v = self.ev(e.value)
-                items.extend(self.iter_concrete(v, e))
+                try:
+                    items.extend(self.iter_concrete(v, e))
+                except Unsupported:
+                    if not isinstance(v, VList):
+                        raise
+                    items.append(StarArgs(v))
+                    symbolic = True
             else:
                 items.append(self.ev(e))
+        if symbolic:
+            return self.concat_parts(items, None, "lst")
         return self.new_list(items)
+
+    def concat_parts(self, parts, elem, label):
+        """A list made of concrete items and symbolic lists (array contents when specs agree)."""
+        from . import codec
+        if elem is None:
+            specs = set()
+            for x in parts:
+                if isinstance(x, StarArgs):
+                    specs.add(repr(self.st.lists[x.lst.oid].spec))
+                    elem_c = self.st.lists[x.lst.oid].spec
+            elem = elem_c if len(specs) == 1 else None
+            from .codec import VOpt
+            if isinstance(elem, str) and not elem.startswith("opt:") and any(
+                    isinstance(x, VAtom) or isinstance(x, VOpt) for x in parts
+                    if not isinstance(x, StarArgs)):
+                elem = "opt:" + elem
+        total = z3.IntVal(0)
+        arrays = None
+        if elem is not None:
+            try:
+                arrays = codec.fresh_arrays(self, elem, label)
+            except Unsupported:
+                arrays, elem = None, None
+        pos = z3.IntVal(0)
+        for x in parts:
+            if isinstance(x, StarArgs):
+                L = self.st.lists[x.lst.oid]
+                if arrays is not None and L.arrays is not None:
+                    j = z3.Int(self.namer.fresh("j"))
+                    inside = z3.And(pos <= j, j < pos + L.len)
+                    srcs = list(L.arrays)
+                    if len(srcs) + 1 == len(arrays):   # the result holds optional elements
+                        srcs = [z3.K(sym.I, z3.BoolVal(False))] + srcs
+                    arrays = [z3.Lambda([j], z3.If(inside, z3.Select(src, j - pos), z3.Select(arr, j)))
+                              for arr, src in zip(arrays, srcs)]
+                else:
+                    arrays = None
+                pos = z3.simplify(pos + L.len)
+            else:
+                if arrays is not None:
+                    try:
+                        terms = codec.encode(self, elem, x)
+                    except Unsupported:
+                        terms = None
+                    if terms is None:
+                        arrays = None
+                    else:
+                        arrays = [z3.Store(arr, pos, t) for arr, t in zip(arrays, terms)]
+                pos = z3.simplify(pos + 1)
+        oid = self.fresh_oid()
+        self.st.lists[oid] = ListObj(pos, None, elem if arrays is not None else None, arrays)
+        return VList(oid)
 
     def new_list(self, items):
         oid = self.fresh_oid()
@@ -666,16 +728,26 @@ class Interp:
 
     def ev_JoinedStr(self, node):
         total = z3.IntVal(0)
+        concrete = []
         for part in node.values:
             if isinstance(part, ast.Constant):
                 total = total + len(part.value)
+                if concrete is not None:
+                    concrete.append(part.value)
             else:
                 v = self.ev(part.value)
+                if concrete is not None and part.format_spec is None and part.conversion == -1 \
+                        and isinstance(v, VStr) and v.lit is not None:
+                    concrete.append(v.lit)
+                else:
+                    concrete = None
                 if part.format_spec is not None:
                     spec = _src(part.format_spec)
                     if not isinstance(v, (VInt, VStr)):
                         raise Unsupported(f"format spec {spec} on {v!r}")
                 self.str_of(v, part)  # __str__/__format__ of the value must be total
+        if concrete is not None:
+            return VStr(lit="".join(concrete))
         s = self.fresh_str("fstr")
         return s
 
@@ -920,6 +992,13 @@ class Interp:
         if isinstance(container, VDict):
             d = self.st.dicts[container.oid]
             return sor(*[self.equal(item, VStr(lit=k), node) for k in d])
+        if isinstance(container, VOpaque) and getattr(container, "abstract_set", False):
+            return z3.Bool(self.namer.fresh("in_set"))
+        if isinstance(container, VList):
+            L = self.st.lists[container.oid]
+            if L.items is not None:
+                return sor(*[self.equal(item, x, node) for x in L.items])
+            return z3.Bool(self.namer.fresh("in_list"))
         r = self.world.contains_ext(self, container, item, node)
         if r is not None:
             return r
@@ -1015,6 +1094,10 @@ class Interp:
             return VOpaque(f"exc.{attr}")
         if isinstance(v, VOpaque) and hasattr(v, "encoded"):
             return VFunc(None, recv=v, builtin=f"opaque.{attr}", name=attr)
+        if isinstance(v, VOpaque) and getattr(v, "abstract_set", False):
+            return VFunc(None, recv=v, builtin=f"aset.{attr}", name=attr)
+        if isinstance(v, VOpaque) and getattr(v, "abstract_mm", False) and attr == "items":
+            return VFunc(None, recv=v, builtin="amm.items", name=attr)
         r = self.world.getattr_ext(self, v, attr, node)
         if r is not None:
             return r
@@ -1131,6 +1214,10 @@ class Interp:
                 if idx.lit in d:
                     return d[idx.lit]
                 self.throw(KeyError, node, "SAFE-Key")
+        if isinstance(v, VOpaque) and getattr(v, "abstract_mm", False):
+            lst = self.fresh_list(getattr(v, "elem_spec", None), "mm_entry")
+            self.mm_lists[lst.oid] = v
+            return lst
         r = self.world.index_ext(self, v, idx, node)
         if r is not None:
             return r
@@ -1217,6 +1304,12 @@ class Interp:
                 o = None
             if isinstance(o, type):
                 return self.construct(o, args, kwargs, node)
+        if isinstance(f, VObj) and isinstance(f.cls, type):
+            for k in f.cls.__mro__:
+                m = k.__dict__.get("__call__")
+                if isinstance(m, types.FunctionType):
+                    return self.call_function(m, [f] + list(args), kwargs, node,
+                                              name=f"{k.__name__}.__call__")
         r = self.world.call_ext(self, f, args, kwargs, node)
         if r is not None:
             return r
@@ -1814,8 +1907,16 @@ class Interp:
                 c = self.world.loop_contracts_for(ref)
                 ordinal = self.world.loop_ordinal(ref, node)
         if c is None:
+            # loops of inlined callees inherit the blanket invariants of the function under proof
+            if self.contract is not None and self.contract.loop_all:
+                return {"invariant": self.contract.loop_all}, ordinal
             return None, ordinal
-        return c.loops.get(ordinal), ordinal
+        lc = c.loops.get(ordinal)
+        if lc is None and c.loop_all:
+            lc = {"invariant": c.loop_all}
+        elif lc is None and self.contract is not None and self.contract.loop_all:
+            lc = {"invariant": self.contract.loop_all}
+        return lc, ordinal
 
     def assigned_in(self, body_nodes):
         names, attrs, calls = set(), set(), []
